@@ -354,7 +354,7 @@ Catalogue ==
   \cup {[op |-> "setColumnByUID", uid |-> u, val |-> 40] : u \in UidArgs}
   \cup {[op |-> "duplicateColumnByUID", uid |-> p[1], uid2 |-> p[2]] : p \in DPairs(UidArgs)}
   \cup {[op |-> "copyByUID", uid |-> p[1], uid2 |-> p[2]] : p \in DPairs(UidArgs)}
-  \cup {[op |-> "addSelection", radix |-> x, k |-> k] : x \in RadixArgs, k \in {0, 1}}
+  \cup (IF "sel" \in Types THEN {[op |-> "addSelection", radix |-> x, k |-> k] : x \in RadixArgs, k \in {0, 1}} ELSE {})
   \cup {[op |-> "addColumns", radix |-> x, t |-> t, r |-> r, val |-> 60] : x \in RadixArgs, t \in RoleArgs, r \in {-1, 0}}
   \cup {[op |-> "deleteColumnsByUIDRange", uid |-> u, n |-> n] : u \in UidArgs, n \in {1, 2}}
   \cup {[op |-> "setLocatorsByUIDRange", uid |-> u, n |-> 2, t |-> t, r |-> r, clean |-> b] :
